@@ -279,12 +279,46 @@ def populated_case(cls, mutation):
     return h
 
 
+def tdf_double_read_case(kind):
+    """Reading the same block twice through one open Tdf yields two independent objects."""
+    def h(I):
+        I.fresh_modules()
+        from . import e2e
+        from . import container as C
+        fs = I.fs()
+        Tdf = I.mod("basictdf").Tdf
+        blk = e2e.real_block(I, kind, "r")
+        spec = {"n": 3, "version": 1, "hdates": [0, 0, 0], "slots": [{"type": 0, "format": 0, "size": 0, "dates": [0, 0, 0], "comment": "x"} for _ in range(3)]}
+        fs.create("f.tdf", spec)
+        with Tdf(fs.path("f.tdf")).allow_write() as t:
+            t.add_block(blk)
+        getter = e2e.KIND_GETTER[kind]
+        with Tdf(fs.path("f.tdf")) as t:
+            a = getattr(t, getter)
+            b = getattr(t, getter)
+            I.prove(f"C20.tdf.{kind}.two_reads_give_two_objects", a is not b)
+            enc_b0 = B.encode(I, b)
+            I.prove(f"C20.tdf.{kind}.both_reads_equal_what_was_stored", I.and_(enc_b0 == B.encode(I, blk), B.encode(I, a) == enc_b0))
+            _edit_in_place(I, kind, a)
+            if kind == "events":
+                a.events.append(_track(I, "events", "x1"))
+            else:
+                a.addSignal(_track(I, "emg", "x1", n=2))
+            I.prove(f"C20.tdf.{kind}.editing_one_read_leaves_the_other", B.encode(I, b) == enc_b0)
+            c = getattr(t, getter)
+            I.prove(f"C20.tdf.{kind}.a_later_read_returns_what_the_file_holds", B.encode(I, c) == enc_b0)
+        I.goal("done")
+    return h
+
+
 ALL = dict(SPEC)
 ALL.update(SPEC_EXTRA)
 
 
 def instances(tier):
     out = []
+    for kind in ("events", "emg"):
+        out.append(Instance(f"tdf.double_read.{kind}", tdf_double_read_case(kind), goals=["done"], cost=20))
     for cls, spec in ALL.items():
         for m in ["add", "edit"] + (["remove"] if spec["remove"] else []) + ([] if tier == "quick" else ["add_edit_remove"]):
             if cls == "calib" and m == "edit":
